@@ -5,7 +5,7 @@ import vlib, linq_ops as L
 from vlib import to_tangelo_gate, dump_tangelo_gate, np_circuit_unitary, same_up_to_phase, tangelo_dump_to_specs
 
 CLAIM = {
- "text": "Proof (Lean 4), partial at pass level: for every gate of the supported set Gate.inverse is proved to denote the inverse operation and Circuit.inverse to undo the circuit on every state of every register size (induction over the gate list); the local rewrite rules used by the simplification passes are proved sound for all angles, targets and control lists (merging two rotations = rotation by the sum; a gate followed by its inverse = identity; rotation by 0 = identity; uncontrolled rotations are 2pi-periodic up to the phase -1 and every rotation is exactly 4pi-periodic, which is the period == must use for CRX/CRY/CRZ); concatenation is proved to compose semantics; the Clifford decomposition table regenerated from /repo is proved correct row by row by kernel computation in Q(zeta_16). One whole pass is proved: remove_small_rotations - if every rotation it drops denotes +- the identity (exact multiples of the period; the float threshold is an input of the model), the output circuit implements the input's operation up to one global sign on every state of every register size (linearity of every operation + induction over the gate list with a keep-mask). NOT proved: that the whole merge / cancel passes (per-qubit last-gate tracking with commuting gates in between), split, stack, trim and reindex preserve semantics - these are checked per generated instance, exactly, by the model (operator equality up to one global phase in Q(zeta_16)) and numerically on the real code. Tie to the code: transformation correspondence (model output gate list = Tangelo output gate list) on random circuits with correlated neighbours and edge angles.",
+ "text": "Proof (Lean 4), partial at pass level: for every gate of the supported set Gate.inverse is proved to denote the inverse operation and Circuit.inverse to undo the circuit on every state of every register size (induction over the gate list); the local rewrite rules used by the simplification passes are proved sound for all angles, targets and control lists (merging two rotations = rotation by the sum; a gate followed by its inverse = identity; rotation by 0 = identity; uncontrolled rotations are 2pi-periodic up to the phase -1 and every rotation is exactly 4pi-periodic, which is the period == must use for CRX/CRY/CRZ); concatenation is proved to compose semantics; the Clifford decomposition table regenerated from /repo is proved correct row by row by kernel computation in Q(zeta_16). One whole pass is proved: remove_small_rotations - if every rotation it drops denotes +- the identity (exact multiples of the period; the float threshold is an input of the model), the output circuit implements the input's operation up to one global sign on every state of every register size (linearity of every operation + induction over the gate list with a keep-mask). The semantic content of one step of the other two passes is proved as well: operations on disjoint qubit sets commute (all pairs of kinds), so a gate can be moved across any block of gates touching none of its qubits, hence merging a rotation into the previous rotation on the same target/controls and cancelling a gate with its inverse are sound AT A DISTANCE (other gates in between), which is exactly what the per-qubit last-gate tables of merge_rotations / remove_redundant_gates license. NOT proved: the bookkeeping invariant of those tables over the whole loop, i.e. that the whole merge / cancel passes (per-qubit last-gate tracking with commuting gates in between), split, stack, trim and reindex preserve semantics - these are checked per generated instance, exactly, by the model (operator equality up to one global phase in Q(zeta_16)) and numerically on the real code. Tie to the code: transformation correspondence (model output gate list = Tangelo output gate list) on random circuits with correlated neighbours and edge angles.",
  "note": "Trusted: Lean kernel, axioms propext/Classical.choice/Quot.sound, table extractor, correspondence harness (sampled), numpy oracle for the search. Float decisions (== rounding, small-rotation threshold) are abstracted as parameters in the theorems and evaluated in Float by the driver; cases within 1e-9 of a discontinuity are discarded and counted. The threshold bound for dropped rotations (|theta|/2 per gate) is checked numerically only.",
  "technique": "Lean 4 semantic theorems (inverse, local rewrite rules, periodicity, Clifford table by kernel computation) + transformation correspondence + exact per-instance operator equality in the model"}
 
